@@ -34,7 +34,11 @@ func UnmarshalValue(b []byte, arch byte, baseType basetype.BaseType, profileType
 			if isArray {
 				vals := make([]typedef.Bool, 0, len(b))
 				for i := range b {
-					vals = append(vals, typedef.Bool(b[i]))
+					v := typedef.Bool(b[i])
+					if v > 1 { // as Bool(v) does for a single value: anything but 0 and 1 is invalid
+						v = typedef.BoolInvalid
+					}
+					vals = append(vals, v)
 				}
 				return SliceBool(vals), nil
 			}
